@@ -84,6 +84,10 @@ class Extractor:
                 out.append(("alt", U(s.test), self.extract(s.body), self.extract(s.orelse)))
             elif isinstance(s, ast.Return):
                 out.append(("ret", U(s.value) if s.value else None))
+            elif isinstance(s, ast.Assign) and len(s.targets) == 1 and isinstance(s.targets[0], ast.Name) and \
+                    isinstance(s.value, ast.Call) and isinstance(s.value.func, ast.Attribute) and s.value.func.attr == "_replace" \
+                    and U(s.value.func.value) == s.targets[0].id and not s.value.args:
+                out.append(("rebind", s.targets[0].id, {k.arg: (U(k.value), k.value) for k in s.value.keywords if k.arg}, s))
             elif isinstance(s, ast.Expr) and isinstance(s.value, ast.Constant):
                 pass
             elif isinstance(s, ast.Pass):
